@@ -13,10 +13,10 @@ EXPLANATION = (
     "dominance order, the capacity test in normal form len(queue) >= MAX_MESSAGE_QUEUE_SIZE (== 10) raising QueueOverflowError, no "
     "queue mutation between purge and raise; R2 the purge is a full scan of the queue in one of the accepted deletion-safe idioms "
     "(descending indices, iteration over a copy, or rebuild by filtering) with no early exit; R3 the not-open test raises before "
-    "anything is built or queued and send() delegates to send_with_header; R4 expired entries are never written (C02.R2 re-used)."
+    "anything is built or queued and send() delegates to send_with_header; R4 expired entries are never written (C02.R2 re-used); R5 close() marks the socket not open before its first await, so a send racing with close() is refused and holds nothing (C15.R1/R2 re-used)."
 )
 ASSUMPTIONS = ["deque deletion by index shifts later elements down (why ascending-index deletion is refuted)"]
-FLOORS = {"C16.R1": 4, "C16.R2": 1, "C16.R3": 3, "C16.R4": 1}
+FLOORS = {"C16.R1": 4, "C16.R2": 1, "C16.R3": 3, "C16.R4": 1, "C16.R5": 1}
 
 
 def run(ctx):
@@ -26,6 +26,16 @@ def run(ctx):
     r1(ctx, enq, r2_nodes)
     r3(ctx)
     r4(ctx)
+    r5(ctx)
+
+
+def r5(ctx):
+    """'not open' begins when close() begins: a send racing with close() must get the not-open error and hold nothing."""
+    from . import c15
+    from .common import reuse
+
+    reuse(ctx, "C16.R5", [c15.r1_r2], "close() marks the socket not open before it first suspends, so a send issued while close() is in progress raises NotOpenError and holds nothing (C15.R1/R2)",
+          keep=lambda o: o.construct in ("close:closed-before-first-await", "close:is_open=False", "close:guard"))
 
 
 def _is_len_queue(e):
